@@ -91,6 +91,12 @@ type catchup struct {
 
 type violation struct{ sig, detail string }
 
+// sentTruncate: a Truncate request a leader issued (kept for redelivery).
+type sentTruncate struct {
+	from int
+	req  *proto.TruncateRequest
+}
+
 type cluster struct {
 	mu   sync.Mutex
 	id   string
@@ -106,6 +112,7 @@ type cluster struct {
 	streams   []*rstream
 	streamSeq int
 	cursors   []*cursor
+	truncs    map[int][]sentTruncate
 	cut       map[string]bool
 
 	eids         map[[2]int64]entry
@@ -183,7 +190,7 @@ func newCluster(id string, mode string, nNodes int, rf int) (*cluster, error) {
 	if err != nil {
 		return nil, err
 	}
-	c := &cluster{id: id, mode: mode, tmp: tmp, dead: make(chan struct{}), cut: map[string]bool{}, eids: map[[2]int64]entry{},
+	c := &cluster{id: id, mode: mode, tmp: tmp, dead: make(chan struct{}), cut: map[string]bool{}, truncs: map[int][]sentTruncate{}, eids: map[[2]int64]entry{},
 		stats: map[string]int{}, lastCK: map[int]string{}, violSeen: map[string]bool{}, lastStatus: map[int]*proto.GetStatusResponse{}}
 	c.mon = newMonitor(c)
 	c.t0 = time.Now()
